@@ -337,7 +337,10 @@ NonLeaf(h) ==
           {Fn(hn, <<Hole("Int", r, ns, ss)>>) : hn \in {"h_id", "h_inc", "h_d3"}} \cup
           {Fn(hn, <<Hole("Int", sp[1], ns, ss), Hole("Int", sp[2], ns, ss)>>) : hn \in {"h_sub", "h_d3"}, sp \in Split2(r)} \cup
           {CallK(Name("h_sub"), <<>>, <<"b", "a">>, <<Hole("Int", sp[1], ns, ss), Hole("Int", sp[2], ns, ss)>>) :
-              sp \in Split2(r)}
+              sp \in Split2(r)} \cup
+          \* every parameter given: the call is resolved at build time; the helper's parameters are named like binders
+          {Fn("h_d3", <<Hole("Int", sp[1], ns, ss), Hole("Int", sp[2], ns, ss), Hole("Int", sp[3], ns, ss)>>) :
+              sp \in Split3(r)}
        ELSE {}) \cup
       (* ---- booleans ---- *)
       (IF s = "Bool" /\ Enabled("Cmp") THEN
